@@ -12,7 +12,9 @@ from ..runner import Divergence, Driver, Env, Outcome, Violation, diff_streams
 THEOREMS = ["C14_reload_drops_all_timers", "C14_refuted_retry", "C14_refuted_waiter_timeout", "C14_refuted_retry_restart",
             "C14_refuted_retry_resume", "C14_refuted_waiter_timeout_restart", "C14_retry_lost_forever",
             "C14_waiter_timeout_lost_forever", "C14_partial", "C14_next_wakeup_is_earliest", "C14_timer_pops_exactly_the_due",
-            "C14_every_timer_fires_when_due", "C14_timer_heap_source_shape"]
+            "C14_every_timer_fires_when_due", "C14_timer_heap_source_shape",
+            "C14_retry_tick_carries_its_first_attempt", "C14_step_result_ignores_reducer_clock",
+            "C14_granted_retry_regranted_at_any_replay_clock"]
 LEAN_TARGETS = ["WfProps.C14"]
 EXPLANATION = (
     "Model WfModel/Timers.lean: one handler of the in-process server stack = persisted tick log + handler row (status, "
@@ -49,7 +51,20 @@ EXPLANATION = (
     "C14_next_wakeup_is_earliest / C14_timer_pops_exactly_the_due / C14_every_timer_fires_when_due (a loop that sleeps until Runner.nextWakeup and "
     "pops delivers every pending timer exactly when due, whatever the arming order); the model keeps the heap as a bag, which "
     "C14_timer_heap_source_shape justifies (scheduled_wakeups is changed through heapq.heappush / heappop only, re-read from control_loop.py), and the "
-    "op `wake` compares the real runner's next_wakeup_timeout with Runner.nextWakeup at every quiescent point."
+    "op `wake` compares the real runner's next_wakeup_timeout with Runner.nextWakeup at every quiescent point. "
+    "Retries already granted (stream 'budget'): a step under a retry policy bounded by ELAPSED time (stop_after_delay(D) / stop_before_delay(D), wait_fixed(w); "
+    "one case in six the same history under stop_after_attempt) fails 2-3 times well inside D, then the run leaves memory for 0 / D / 2D / 3D / 40 / 50 virtual "
+    "seconds (plan action [\"crash\", downtime]; the model ops restart t / resume t' carry both clocks): process stop with retry n executing (a sibling branch "
+    "keeps the handler non-idle, so the next boot resumes it) or with its delay running, or idle release while retry n is suspended in wait_for_event and the "
+    "awaited event reloads the run. Monitors: granted_retry_revoked_by_reload_after_<cut>_<pending|in_flight|suspended_in_wait|carried_out> -- the journal replay "
+    "of a reload is asked about the very failures the live loop was asked about (paired in journal order by step / input / failure number); a failure for which "
+    "the live policy granted a retry must not be answered 'give up' in the replay (what was handed to the policy live and in the replay is reported, with what the "
+    "reloaded run then did); retry_in_flight_not_resumed_after_restart -- end to end from step executions and the handler row: a retried execution that was running "
+    "at the process stop of a running / non-idle handler is executed again after the next boot. Both hold of the unchanged code (its replay re-stamps the first "
+    "attempt of a NON-retried execution with the replay clock -- open finding of C11 -- which can only turn a refusal into a grant, never the reverse). Lean: "
+    "C14_retry_tick_carries_its_first_attempt (a retry tick with its first_attempt_at starts the same execution at every reducer clock), "
+    "C14_step_result_ignores_reducer_clock (for EVERY policy the commands of a step-result tick -- retry granted, delay, exit -- are the same at every reducer clock), "
+    "C14_granted_retry_regranted_at_any_replay_clock (their composition), with a stop_after_delay(7) history reloaded 25 s after the first attempt as the worked example."
 )
 ASSUMPTIONS = suite.ENGINE_ASSUMPTIONS + [
     "process stop is modelled at quiescent points of the event loop (tick buffer drained); a stop between a tick's on_tick and its commands is property C13's subject",
@@ -182,6 +197,51 @@ def gen_multi_conf(rng: random.Random, spec: dict) -> dict:
     return {"idle_timeout": int(idle), "crashes": rng.choice([0, 0, 0, 0, 1]), "crash_pct": 10, "horizon": 300}
 
 
+def gen_budget_case(rng: random.Random) -> tuple[str, dict, dict]:
+    """A step whose retry policy is bounded by ELAPSED TIME (stop_after_delay(D) / stop_before_delay(D), wait_fixed(w)) fails
+    n >= 2 times in a row -- every failure well inside the budget, so every retry is granted and the second and later ones
+    are journaled as retry ticks carrying the original first-attempt time -- and then the run leaves memory for LONGER than
+    the budget D:
+      in_flight  the execution of retry n is still working (sleep) when the process stops; downtime 0 / D / 3D / 50 s; a
+                 sibling branch keeps the run busy throughout, so the handler is never flagged idle and the next boot resumes it;
+      pending    the process stops while the delay of retry n is running (the timer itself is the known loss; what the
+                 reload makes of the journaled failures is still observed);
+      waiting    retry n succeeds as far as a wait_for_event nobody answers; the run is released for idleness
+                 (idle_timeout just above the retry delay) and reloaded by the awaited event D / 2D / 40 s later.
+    Uninterrupted, each of these runs completes after n failures + 1 success of the step."""
+    kind = rng.choice(["delay", "delay", "delay", "before_delay", "before_delay", "attempts"])  # (attempts: the same histories under a count-bounded policy)
+    shape = rng.choice(["in_flight", "in_flight", "in_flight", "pending", "waiting", "waiting"])
+    n = rng.choice([2, 2, 3])
+    w = rng.choice([2, 3] if shape == "pending" else [1, 2, 3])
+    D = n * w + rng.choice([1, 2, 4])  # failure k comes (k-1)*w after the first attempt: (n-1)*w (+ w) < D, every retry is granted
+    pol = {"kind": kind, "d": D, "wait": w} if kind != "attempts" else {"kind": "attempts", "n": n + rng.choice([1, 2]), "wait": w}
+    exc = rng.randint(1, 9)
+    if shape == "waiting":
+        worker = {"name": "s02", "accepts": [5], "nw": rng.randint(1, 2), "retry": pol,
+                  "script": [["fail_until", n, exc], ["wait", 3, None, None, rng.choice([None, "w01"]), None], ["ret", "stop"]]}
+        start = {"name": "s00", "accepts": [0], "nw": 1, "retry": None, "script": [["ret", "5"]]}
+        steps = [start, worker]
+        idle = w + rng.choice([1, 2])
+        t_send = n * w + idle + rng.choice([D, 2 * D, 40])
+        conf = {"idle_timeout": idle, "plan": [["until", t_send], ["send", 3, None, None], ["until", t_send + 20]]}
+    else:
+        L = rng.choice([10, 20, 40])
+        worker = {"name": "s02", "accepts": [5], "nw": rng.randint(1, 2), "retry": pol,
+                  "script": [["fail_until", n, exc], ["sleep", L], ["ret", "stop"]]}
+        busy = rng.random() < 0.85
+        start = {"name": "s00", "accepts": [0], "nw": 1, "retry": None,
+                 "script": ([["send", 7, None, 1]] if busy else []) + [["ret", "5"]]}
+        steps = [start, worker]
+        if busy:
+            steps.append({"name": "s06", "accepts": [7], "nw": 1, "retry": None, "script": [["sleep", 500], ["ret", "none"]]})
+        t_cut = (n * w + rng.randint(1, L - 1)) if shape == "in_flight" else ((n - 1) * w + rng.randint(1, w - 1))
+        down = rng.choice([0, D, 3 * D, 50])
+        conf = {"idle_timeout": rng.choice([10 ** 6, 10 ** 6, 200]),
+                "plan": [["until", t_cut], ["crash", down], ["until", t_cut + down + 2 * (n * w + L) + 10]]}
+    rng.shuffle(steps)
+    return shape, {"steps": steps, "externals": [], "timeout": None}, conf
+
+
 def gen_conf(rng: random.Random, spec: dict, cut: bool) -> dict:
     if not cut:
         return {"idle_timeout": 10 ** 6, "crashes": 0, "horizon": 300}
@@ -260,7 +320,13 @@ def _one(out: Outcome, batch: _Batch, stream: str, fam: str, spec: dict, conf: d
         out.count(f"{stream}:three_or_more_pending:{shape}")
     if exps or cs:
         out.nontrivial((json.dumps(spec, sort_keys=True), json.dumps(conf, sort_keys=True), tuple(tr.actions)))
-    vs = timers.mon_timers(tr, case)
+    vs = timers.mon_timers(tr, case) + timers.mon_granted_retries(tr, case)
+    for (lo, hi) in timers.reloads(tr):
+        fs = timers._failure_decisions(tr.trace.calls, lo, hi, "replay_ticks_stream")
+        tb = [f for f in fs if any(st["name"] == f[1] and (st.get("retry") or {}).get("kind") in ("delay", "before_delay") for st in spec["steps"])]
+        out.count(f"{stream}:reload:replayed_failures:{min(len(fs), 3)}{'+' if len(fs) >= 3 else ''}")
+        if tb:
+            out.count(f"{stream}:reload:time_bounded_policy:replayed_failures:{min(len(tb), 3)}{'+' if len(tb) >= 3 else ''}")
     if tr.end == "runaway":
         vs.append(Violation("C14/control_loop_spins", "the event loop never became quiescent: the control loop spins at one instant of virtual time "
                             f"(t={tr.final.get('t')}); timers expected: {[(e.kind, e.step, e.due) for e in exps if e.delivered_t is None]}", case))
@@ -329,7 +395,9 @@ def run(env: Env) -> Outcome:
                 "stream 'norelease': idle_timeout 1e6, no process stop (monitors must be silent); stream 'cut': idle_timeout = a pending delay -1/0/+1, 1, 2x or 1000, "
                 "0-2 process stops at random quiescent points, service sends; stream 'multi': 3-5 timers (wait_for_event timeouts / retry delays from 2..27 s, "
                 "25% with a tie, 35% with a workflow timeout) pending at once, armed in random order, idle_timeout = largest gap between consecutive due times +1/+2/+0, "
-                "1e6, a delay -1/+1 or 1, one process stop in 20% of the runs; non-trivial = a run with at least one expected timer or one cut; "
+                "1e6, a delay -1/+1 or 1, one process stop in 20% of the runs; stream 'budget': retry policies bounded by elapsed time (stop_after_delay / stop_before_delay D, "
+                "wait_fixed 1..3 s), 2-3 failures all granted inside D, then the run leaves memory for 0 / D / 2D / 3D / 40 / 50 s -- process stop with retry n in flight (50%) or "
+                "its delay running (17%), idle release while retry n waits for an event (33%) -- and is reloaded; non-trivial = a run with at least one expected timer or one cut; "
                 "distinct by (spec, conf, schedule)")
     rng = random.Random(env.rng.randrange(1 << 30))
     batch = _Batch()
@@ -355,6 +423,12 @@ def run(env: Env) -> Outcome:
     for _ in range(env.budget(100, 2500)):
         spec = gen_multi_timer_spec(rng)
         _one(out, batch, "multi", "multi", spec, gen_multi_conf(rng, spec), rng.randrange(1 << 30), None)
+        if len(batch.ops) > 60000:
+            _flush(out, batch)
+            batch = _Batch()
+    for _ in range(env.budget(60, 1500)):
+        shape, spec, conf = gen_budget_case(rng)
+        _one(out, batch, "budget", shape, spec, conf, rng.randrange(1 << 30), None)
         if len(batch.ops) > 60000:
             _flush(out, batch)
             batch = _Batch()
